@@ -29,7 +29,7 @@ LEVEL = 'exploration'
 RULE = ('seeded operation histories (3..30 ops) over one writable VPK in a private temp directory: add_file, '
         'new_file+write, overwrite (FileInfo.write), delete, delete of a missing name, add of an existing name, '
         'write_dirfile (also through the context manager), abandon-and-reopen, reopen in modes r/w/a (the preload limit '
-        'may change at a reopen); archive kinds {<prefix>_dir.vpk, single file}; dir_data_limit in {None,0,7,1024}; '
+        'may change at a reopen); archive kinds {<prefix>_dir.vpk, single file}; dir_data_limit in {None,0,7,1024,65535,65536,100000} (constructor argument or attribute); '
         'arch_index in {None,0,1,2} per write; sizes drawn from {0,1,limit-1,limit,limit+1,65535,65536,65537, small, '
         '<=70000, <=300 KiB}; names are (folder,name,ext) triples over an ASCII alphabet incl. mixed case, space, '
         'punctuation and control characters with empty folder / name / ext parts, addressed in string, 2-tuple and '
@@ -46,7 +46,7 @@ ASSUMPTIONS = ['VPK version 1 only (the library cannot write version 2)',
                'POSIX path semantics for os.path.split/normpath inside _get_file_parts']
 JOBS = {'quick': 4, 'thorough': 16}
 
-LIMITS = [None, 0, 7, 1024]
+LIMITS = [None, 0, 7, 1024, 1024, 65535, 65536, 100000]   # the preload length field is 16 bits wide
 ARCH = [None, 0, 1, 2]
 NAME_CHARS = 'abcxyzABCXYZ019_- !#$%&()+,;=@[]^`{}~\'\x01\t\x7f'
 MAX_PRELOAD = 0xFFFF
@@ -201,6 +201,18 @@ def gen_ident(rng: random.Random) -> List[str]:
         folder = '/'.join(gen_part(rng) for _ in range(depth))
         name = '' if rng.random() < 0.12 else gen_part(rng)
         ext = '' if rng.random() < 0.3 else gen_part(rng)
+        # dots: inside folder names ('models/v1.2'), and in the name when there is an extension after it ('a.b.c',
+        # '.hidden.txt') - the last dot separates the extension, so all three name forms still agree
+        if folder and rng.random() < 0.15:
+            parts = folder.split('/')
+            k = rng.randrange(len(parts))
+            if len(parts[k]) >= 2:
+                cut = rng.randrange(1, len(parts[k]))
+                parts[k] = parts[k][:cut] + '.' + parts[k][cut:]
+                folder = '/'.join(parts)
+        if name and ext and rng.random() < 0.15:
+            cut = rng.randrange(0, len(name) + 1)
+            name = name[:cut] + '.' + name[cut:]
         if folder == ' ':
             continue
         if folder or name or ext:
@@ -389,7 +401,13 @@ class Exec:
         try:
             # the path is given as str and as os.PathLike alternately (both documented)
             self._opens = getattr(self, '_opens', 0) + 1
-            self.vpk = VPK(pathlib.Path(self.path) if self._opens % 2 == 0 else self.path, mode=mode, dir_data_limit=limit)
+            if self._opens % 3 == 2:
+                # the same option given through the public attribute of the open archive instead of the constructor
+                self.vpk = VPK(pathlib.Path(self.path) if self._opens % 2 == 0 else self.path, mode=mode)
+                self.vpk.dir_limit = limit
+                self.run.count('dir_limit_set_as_attribute')
+            else:
+                self.vpk = VPK(pathlib.Path(self.path) if self._opens % 2 == 0 else self.path, mode=mode, dir_data_limit=limit)
         except Exception as exc:
             if mode == 'r' and self.disk is None and isinstance(exc, FileNotFoundError):
                 raise AssertionError('generator bug: r-open of a missing file')
@@ -795,7 +813,7 @@ def main(run, shard=(0, 1)) -> None:
         shutil.rmtree(base, ignore_errors=True)
     probe.report(run)
     probe.check_reached(run)
-    run.require('files_created_relative_to_root', 'operations', 'dirfile_writes', 'file_reads_compared', 'decoder_files_compared', 'name_forms_compared',
+    run.require('files_created_relative_to_root', 'dir_limit_set_as_attribute', 'operations', 'dirfile_writes', 'file_reads_compared', 'decoder_files_compared', 'name_forms_compared',
                 'readonly_rejections', 'overwrites', 'deletes', 'writes_crossing_preload_limit', 'writes_over_64k',
                 'open_a', 'open_r', 'open_w')
 
